@@ -724,6 +724,10 @@ class Interp:
         except ControlUndecided:
             raise
         except Undecided as u:
+            # a statement that can leave the function WITH A VALUE (`if shortcut() { return fast_path(); }`) is not a local matter: if it
+            # cannot be summarised, the exit it contains would be dropped and the function would be summarised by its main path alone
+            if contains_value_exit(s):
+                raise ControlUndecided("an undecided statement contains a value-returning exit (%s)" % u.what, u.span)
             self.note_undecided(u)
             # opaque fallback: every local this statement may define or modify becomes a named unknown
             for (vid, name, ty) in mutated_locals(s):
@@ -1887,6 +1891,31 @@ def whole_assigned_vars(expr):
                 walk(v)
     walk(expr)
     return out
+
+
+def contains_value_exit(node):
+    """True iff the THIR fragment contains a `return v` whose value is not a failure (`Err(..)`, `None`, the residual of `?`)."""
+    if isinstance(node, dict):
+        if node.get("k") == "return":
+            v = strip(node.get("e")) if node.get("e") is not None else None
+            if v is None:
+                return False
+            failure = False
+            if isinstance(v, dict):
+                if v.get("k") == "call" and (v.get("callee") or {}).get("name") == "from_residual":
+                    failure = True
+                if v.get("k") == "adt" and str(v.get("adt", "")).endswith(("option::Option", "result::Result")) and v.get("variant") in ("Err", "None"):
+                    failure = True
+            if not failure:
+                return True
+        for x in node.values():
+            if contains_value_exit(x):
+                return True
+    elif isinstance(node, list):
+        for x in node:
+            if contains_value_exit(x):
+                return True
+    return False
 
 
 def mutated_locals(stmt):
